@@ -2122,7 +2122,8 @@ class Compiler:
         # Set a trivial default value for each name assigned to make
         # sure we assign a value even if the iteration is empty
         outer += [ast.Assign(
-            targets=[store_econtext(name)
+            targets=[subscript(str(name), load(context), ast.Store())
+                     for context in contexts
                      for name in node.names],
             value=load("None"))
         ]
